@@ -123,11 +123,16 @@ class NoneT(Ty):
 INT, BOOL, STR, TEXT, NONE = IntT(), BoolT(), StrT(), TextT(), NoneT()
 
 
+def _mangle(name):
+    return name.replace("<", "_l_").replace(">", "_r").replace(",", "_c_")
+
+
 def _mk_record(name, fields):
     if name in _SORTS:
         return _SORTS[name]
-    dt = z3.Datatype(name)
-    dt.declare("mk_" + name, *[(name + "_" + f, s) for f, s in fields])
+    name_ = _mangle(name)
+    dt = z3.Datatype(name_)
+    dt.declare("mk_" + name_, *[(name_ + "_" + f, s) for f, s in fields])
     srt = dt.create()
     _SORTS[name] = srt
     return srt
@@ -193,7 +198,7 @@ class ListT(Ty):
         return self.sort().accessor(0, 1)(t)
 
     def empty(self):
-        return self.mk(z3.K(z3.IntSort(), self.elt.fresh("dflt")), z3.IntVal(0))
+        return self.mk(z3.FreshConst(z3.ArraySort(z3.IntSort(), self.elt.sort()), "arr0"), z3.IntVal(0))
 
     def decode(self, model, term):
         n = model.eval(self.len(term), model_completion=True)
@@ -226,10 +231,50 @@ class DictT(Ty):
         return self.sort().accessor(0, 1)(t)
 
     def empty(self):
-        return self.mk(z3.K(self.k.sort(), z3.BoolVal(False)), z3.K(self.k.sort(), self.v.fresh("dflt")))
+        return self.mk(z3.K(self.k.sort(), z3.BoolVal(False)), z3.FreshConst(z3.ArraySort(self.k.sort(), self.v.sort()), "val0"))
+
+    def store(self, t, k, v):
+        return self.mk(z3.Store(self.has(t), k, True), z3.Store(self.val(t), k, v))
+
+    def remove(self, t, k):
+        return self.mk(z3.Store(self.has(t), k, False), self.val(t))
 
     def decode(self, model, term):
         return "<dict %s>" % model.eval(self.has(term), model_completion=True)
+
+
+class OrdDictT(DictT):
+    """dict whose insertion order is observable: extra field keys (list of keys in insertion order)"""
+
+    def __init__(self, k, v):
+        self.k, self.v = k, v
+        self.kl = ListT(k)
+        self.name = "OrdDict<" + k.name + "," + v.name + ">"
+
+    def sort(self):
+        return _mk_record(self.name, [("has", z3.ArraySort(self.k.sort(), z3.BoolSort())),
+                                      ("val", z3.ArraySort(self.k.sort(), self.v.sort())), ("keys", self.kl.sort())])
+
+    def mk(self, has, val, keys):
+        return self.sort().constructor(0)(has, val, keys)
+
+    def keys(self, t):
+        return self.sort().accessor(0, 2)(t)
+
+    def empty(self):
+        return self.mk(z3.K(self.k.sort(), z3.BoolVal(False)), z3.FreshConst(z3.ArraySort(self.k.sort(), self.v.sort()), "val0"), self.kl.empty())
+
+    def store(self, t, k, v):
+        ks = self.keys(t)
+        appended = self.kl.mk(z3.Store(self.kl.arr(ks), self.kl.len(ks), k), self.kl.len(ks) + 1)
+        return self.mk(z3.Store(self.has(t), k, True), z3.Store(self.val(t), k, v), z3.If(z3.Select(self.has(t), k), ks, appended))
+
+    def remove(self, t, k):
+        raise NotImplementedError("removal from an ordered dict is not modelled")
+
+    def decode(self, model, term):
+        ks = self.kl.decode(model, self.keys(term))
+        return {"keys_in_order": ks}
 
 
 class SetT(Ty):
@@ -258,9 +303,10 @@ class OptT(Ty):
     def sort(self):
         if self.name in _SORTS:
             return _SORTS[self.name]
-        dt = z3.Datatype(self.name)
-        dt.declare("none_" + self.name)
-        dt.declare("some_" + self.name, ("val_" + self.name, self.inner.sort()))
+        nm = _mangle(self.name)
+        dt = z3.Datatype(nm)
+        dt.declare("none_" + nm)
+        dt.declare("some_" + nm, ("val_" + nm, self.inner.sort()))
         srt = dt.create()
         _SORTS[self.name] = srt
         return srt
@@ -292,3 +338,18 @@ def FalseOr(t):
 
 def Opt(t):
     return OptT(t, kind="none")
+
+
+class MapT(Ty):
+    """total map (ghost arrays): z3 Array K V, no presence bit"""
+
+    def __init__(self, k, v):
+        self.k, self.v = k, v
+        self.name = "Map<" + k.name + "," + v.name + ">"
+
+    def sort(self):
+        return z3.ArraySort(self.k.sort(), self.v.sort())
+
+    def decode(self, model, term):
+        return "<map %s>" % model.eval(term, model_completion=True)
+
